@@ -611,6 +611,7 @@ GetStep(S, a) == Reply(S, -2)     \* -2: the reply of an observation request is 
 
 Unmodelled(a) == ("obo" \in DOMAIN a /\ a.obo # "") \/ ("t" \in DOMAIN a /\ a.t \notin Topics)
                  \/ ("u" \in DOMAIN a /\ a.u \notin Users)
+                 \/ a.a = "Suspend" \/ ("nopred" \in DOMAIN a /\ a.nopred)    \* account suspension is not modelled: monitors only
                  \/ ("chan" \in DOMAIN a /\ a.chan /\ a.a \notin {"NewGrp", "Sub", "Leave", "Note", "Get"})
                  \/ ("s" \in DOMAIN a /\ a.s \in RootSessions)
 \* a logged pre-state in which a session lists a topic that is not loaded is outside the model (it cannot arise from Init);
